@@ -8,7 +8,6 @@ type ZZRouteInfo struct {
 	Host, Path string
 	Targets    []string // URL of every target
 	Ring       []string // URL per ring slot
-	Total      uint64
 }
 
 // ZZRoutes describes every route of t.
@@ -16,7 +15,7 @@ func ZZRoutes(t Table) []ZZRouteInfo {
 	var out []ZZRouteInfo
 	for _, routes := range t {
 		for _, r := range routes {
-			ri := ZZRouteInfo{Host: r.Host, Path: r.Path, Total: r.total}
+			ri := ZZRouteInfo{Host: r.Host, Path: r.Path}
 			for _, tg := range r.Targets {
 				ri.Targets = append(ri.Targets, tg.URL.String())
 			}
